@@ -1,6 +1,7 @@
 import SaramaVerif.Driver.Util
 import SaramaVerif.Model.Producer
 import SaramaVerif.Model.IdemBroker
+import SaramaVerif.Model.PartProd
 /-
   Replays hook-event traces of the real async producer through Model.Producer.step (trace validation).
   Lines:  reset <retryMax> <icepts> <idem>   |   ev <kind> <id> <a> <b>   |   end <closedSeen>
@@ -13,6 +14,7 @@ structure DS where
   st : St
   failed : Bool
   brokers : List (Int × Model.IdemBroker.PState) := []   -- partition → leader state for the scenario's producer id
+  pps : List (Int × Model.PartProd.St × List Model.PartProd.Action) := []  -- partition → partition-producer state, expected actions
 
 def getB (l : List (Int × Model.IdemBroker.PState)) (p : Int) : Model.IdemBroker.PState :=
   match l.find? (fun x => x.1 = p) with
@@ -22,6 +24,50 @@ def getB (l : List (Int × Model.IdemBroker.PState)) (p : Int) : Model.IdemBroke
 def setB (l : List (Int × Model.IdemBroker.PState)) (p : Int) (s : Model.IdemBroker.PState) :
     List (Int × Model.IdemBroker.PState) :=
   (p, s) :: l.filter (fun x => x.1 ≠ p)
+
+def getPP (l : List (Int × Model.PartProd.St × List Model.PartProd.Action)) (p : Int) :
+    Model.PartProd.St × List Model.PartProd.Action :=
+  match l.find? (fun x => x.1 = p) with
+  | some x => x.2
+  | none => ({}, [])
+
+def setPP (l : List (Int × Model.PartProd.St × List Model.PartProd.Action)) (p : Int)
+    (v : Model.PartProd.St × List Model.PartProd.Action) : List (Int × Model.PartProd.St × List Model.PartProd.Action) :=
+  (p, v) :: l.filter (fun x => x.1 ≠ p)
+
+/-- the partition-producer part of an event: `none` = not a partition-producer event -/
+def ppObserved (kind : String) (id a b : Int) : Option Model.PartProd.Action :=
+  match kind with
+  | "pp.buf" => some (.park id)
+  | "pp.fwd" => some (.emit id a.toNat false)
+  | "pp.fail" => some (.emit id a.toNat false)
+  | "wg.add.fin" => some (.finSend (b.toNat - 1))
+  | "wg.done.fin" => some .finDone
+  | _ => none
+
+/-- validate one event against the partition-producer model; returns the new table or a rejection -/
+def ppCheck (d : List (Int × Model.PartProd.St × List Model.PartProd.Action)) (kind : String) (id a b p : Int) :
+    Except String (List (Int × Model.PartProd.St × List Model.PartProd.Action)) :=
+  if kind = "pp.recv" then
+    let (st, q) := getPP d p
+    if ¬ q.isEmpty then .error s!"pp.recv on partition {p} while the model still expects {repr q}"
+    else
+      let r := Model.PartProd.recv st { id := id, retries := a.toNat, fin := (b.toNat / 2) % 2 = 1 }
+      .ok (setPP d p r)
+  else
+    let part := if kind = "wg.add.fin" then a else p
+    match ppObserved kind id a b with
+    | none => .ok d
+    | some act =>
+      let (st, q) := getPP d part
+      match q with
+      | [] => .error s!"partition producer {part}: unexpected {repr act}"
+      | x :: rest =>
+        let same : Bool := match x, act with
+          | .emit i l _, .emit j m _ => i == j && l == m      -- the fin flag is not carried by pp.fwd events
+          | _, _ => x == act
+        if same then .ok (setPP d part (st, rest))
+        else .error s!"partition producer {part}: expected {repr x}, observed {repr act}"
 
 def showVerdict : Model.IdemBroker.Verdict → String
   | .appended b => s!"app {b}"
@@ -48,27 +94,30 @@ def toEv (kind : String) (id a : Int) : Option Ev :=
   | "pp.seq" => some (.seq id)
   | "wg.waited" => some .waited
   | "close" => some .close
-  | "pp.recv" | "pp.buf" | "pp.fwd" | "bp.bounce" | "bp.add" | "bp.sent" | "bp.sent.end"
+  | "pp.recv" | "pp.buf" | "pp.fwd" | "pp.fail" | "pp.abandon" | "bp.bounce" | "bp.add" | "bp.sent" | "bp.sent.end"
   | "bp.answered" | "bp.answered.end" => some .other
   | _ => none
 
 def step (d : DS) (t : List String) : DS × String :=
   match t with
   | ["reset", rm, ic, idem] =>
-    ({ st := init { retryMax := nat! rm, icepts := nat! ic, idem := idem = "1" }, failed := false, brokers := [] }, "ok")
+    ({ st := init { retryMax := nat! rm, icepts := nat! ic, idem := idem = "1" }, failed := false, brokers := [], pps := [] }, "ok")
   | ["bb", p, epoch, firstSeq, payloads] =>
     -- one batch arriving at the leader of partition p (simulated cluster ↔ Model.IdemBroker.arrive)
     let st := getB d.brokers (int! p)
     let (st', v) := Model.IdemBroker.arrive st (int! epoch) (nat! firstSeq) (intList payloads)
     ({ d with brokers := setB d.brokers (int! p) st' }, showVerdict v)
-  | ["ev", kind, id, a, _b] =>
+  | ["ev", kind, id, a, b, p] =>
     if d.failed then (d, "ok") else
     match toEv kind (int! id) (int! a) with
     | none => ({ d with failed := true }, s!"reject: unknown event kind {kind}")
     | some e =>
       match Model.Producer.step d.st e with
-      | .ok s' => ({ d with st := s' }, "ok")
       | .error m => ({ d with failed := true }, s!"reject: {m}")
+      | .ok s' =>
+        match ppCheck d.pps kind (int! id) (int! a) (int! b) (int! p) with
+        | .ok pps' => ({ d with st := s', pps := pps' }, "ok")
+        | .error m => ({ d with failed := true }, s!"reject: {m}")
   | ["end", c] =>
     if d.failed then (d, "ok")
     else if c = "1" ∧ ¬ d.st.closed then (d, "reject: channels closed without close event")
